@@ -11,22 +11,52 @@ let next t = let s = t.a.(t.i) in t.i <- t.i + 1; s
 let next_int t = int_of_string (next t)
 let has_more t = t.i < Array.length t.a
 
-(* ---------- floats ---------- *)
-type 'z fmt_ = { prec : 'z; emax : 'z; num : Num.coq_Num; hexlen : int }
-let f64 = { prec = z_of_int 53; emax = z_of_int 1024; num = NumB.coq_NB64; hexlen = 16 }
-let f32 = { prec = z_of_int 24; emax = z_of_int 128; num = NumB.coq_NB32; hexlen = 8 }
-let fmt_of_string s = if s = "64" then f64 else if s = "32" then f32 else failwith ("bad precision " ^ s)
+(* ---------- numbers ---------- *)
+(* a numeric format: the instance of the model and how its values are read and printed *)
+type fmt = { num : Num.coq_Num; rd : string -> Obj.t; pr : Obj.t -> string }
 
-let float_of_tok f (s : string) : Obj.t =
+let sf_of_hex (s : string) : SpecFloat.spec_float =
   let bits = Int64.of_string ("0x" ^ s) in
-  Obj.repr (NumB.of_bits f.prec f.emax (z_of_bits64 bits))
+  if String.length s = 16 then NumB.of_bits (z_of_int 53) (z_of_int 1024) (z_of_bits64 bits)
+  else NumB.of_bits (z_of_int 24) (z_of_int 128) (z_of_bits64 bits)
 
 (* canonical printing: both zeros print as +0 *)
-let tok_of_float f (x : Obj.t) : string =
-  let x : SpecFloat.spec_float = Obj.obj x in
+let hex_of_sf prec emax hexlen (x : SpecFloat.spec_float) : string =
   let x = match x with SpecFloat.S754_zero _ -> SpecFloat.S754_zero false | _ -> x in
-  let b = int64_of_z (NumB.to_bits f.prec f.emax x) in
-  if f.hexlen = 16 then Printf.sprintf "%016Lx" b else Printf.sprintf "%08Lx" b
+  let b = int64_of_z (NumB.to_bits prec emax x) in
+  if hexlen = 16 then Printf.sprintf "%016Lx" b else Printf.sprintf "%08Lx" b
+
+let f64 = { num = NumB.coq_NB64; rd = (fun s -> Obj.repr (sf_of_hex s));
+            pr = (fun x -> hex_of_sf (z_of_int 53) (z_of_int 1024) 16 (Obj.obj x)) }
+let f32 = { num = NumB.coq_NB32; rd = (fun s -> Obj.repr (sf_of_hex s));
+            pr = (fun x -> hex_of_sf (z_of_int 24) (z_of_int 128) 8 (Obj.obj x)) }
+
+(* rationals travel as q<num>/<den> *)
+let q_of_tok (s : string) : QArith_base.coq_Q =
+  if String.length s > 0 && s.[0] = 'q' then begin
+    let body = String.sub s 1 (String.length s - 1) in
+    match String.split_on_char '/' body with
+    | [n; d] -> { QArith_base.coq_Qnum = z_of_string n; QArith_base.coq_Qden = pos_of_string d }
+    | [n] -> { QArith_base.coq_Qnum = z_of_string n; QArith_base.coq_Qden = pos_of_int 1 }
+    | _ -> failwith ("bad rational " ^ s)
+  end else
+    match Convert.sf2q (sf_of_hex s) with
+    | Some q -> q
+    | None -> failwith "non-finite coordinate for the exact instance"
+let tok_of_q (q : QArith_base.coq_Q) : string =
+  "q" ^ string_of_z q.QArith_base.coq_Qnum ^ "/" ^ string_of_pos q.QArith_base.coq_Qden
+let fq = { num = NumQ.coq_NQ;
+           rd = (fun s -> Obj.repr (NumQ.QF (q_of_tok s)));
+           pr = (fun x -> match (Obj.obj x : NumQ.qx) with
+               | NumQ.QF q -> tok_of_q q | NumQ.QPInf -> "+inf" | NumQ.QNInf -> "-inf" | NumQ.QNaN -> "nan") }
+
+let fmt_of_string s =
+  match s with
+  | "64" -> f64 | "32" -> f32 | "q" | "q64" | "q32" -> fq
+  | _ -> failwith ("bad precision " ^ s)
+
+let float_of_tok f (s : string) : Obj.t = f.rd s
+let tok_of_float f (x : Obj.t) : string = f.pr x
 
 let read_pt f t : Num.pt =
   let x = float_of_tok f (next t) in
@@ -254,10 +284,11 @@ let cmd_splay t =
    region := E <nrings> ring* | Y <npoly> polygon*       (float coordinates, converted exactly)
    law    := in k | true | false | not L | and L L | or L L | xor L L | eq L L   (prefix) *)
 exception Nonfinite
-let qpt_of_tok f t : Slab.qpt =
-  let x : SpecFloat.spec_float = Obj.obj (float_of_tok f (next t)) in
-  let y : SpecFloat.spec_float = Obj.obj (float_of_tok f (next t)) in
-  match Convert.sfpt x y with Some p -> p | None -> raise Nonfinite
+let qpt_of_tok _f t : Slab.qpt =
+  let rd s = try q_of_tok s with Failure _ -> raise Nonfinite in
+  let x = rd (next t) in
+  let y = rd (next t) in
+  { Slab.qx = x; Slab.qy = y }
 
 let rec read_law t : Scene.law =
   match next t with
